@@ -375,6 +375,15 @@ def thread_programs(tier: str) -> list[dict[str, Any]]:
         for cap, init in inits:
             for i, j in pairs:
                 progs.append({"cap": cap, "init": init, "threads": [[a1[i]], [a1[j]]], "bound": 3})
+        # deeper: 2 threads x 3 ops (one mutator-heavy program against every 2-op program) at bound 2,
+        # and 3 threads x 1 op at bound 3
+        three = [(("set", "z", 1), ("getitem", "a"), ("set", "y", 1)), (("del", "a"), ("set", "a", 1), ("items",))]
+        for cap, init in inits2:
+            for p3 in three:
+                for q in two:
+                    progs.append({"cap": cap, "init": init, "threads": [list(p3), list(q)], "bound": 2})
+            for tri in itertools.combinations_with_replacement(a2, 3):
+                progs.append({"cap": cap, "init": init, "threads": [[x] for x in tri], "bound": 3})
     else:
         for cap, init in inits2:
             for tri in itertools.combinations_with_replacement(a2, 3):
@@ -500,6 +509,73 @@ def run_thread_program(prog: dict[str, Any], res: Result, max_schedules: int = 1
                             "preemption_bound": bound, "schedules": n, "distinct_outcomes": len(outcomes)})
 
 
+def free_running_stress(nthreads: int, cap: int, seed: int, res: Result, ops_per_thread: int = 4000) -> None:
+    """SUPPLEMENTARY (sampling, not what decides the property): real lock, real preemptive threads under a tiny
+    switch interval -- catches unsynchronised accesses that a cooperative scheduler's hand-offs could hide."""
+    import random
+    import sys
+    import threading
+
+    from liquid.utils import lru_cache as mod
+
+    c = mod.ThreadSafeLRUCache(cap)
+    errors: list[str] = []
+    over: list[int] = []
+    keys = KEYS[: cap + 1]
+    old = sys.getswitchinterval()
+    sys.setswitchinterval(1e-6)
+
+    def worker(tid: int) -> None:
+        rnd = random.Random(seed * 1000 + tid)
+        for _ in range(ops_per_thread):
+            k = rnd.choice(keys)
+            op = rnd.randrange(8)
+            try:
+                if op == 0:
+                    c[k] = tid
+                elif op == 1:
+                    c.get(k)
+                elif op == 2:
+                    try:
+                        del c[k]
+                    except KeyError:
+                        pass
+                elif op == 3:
+                    _ = k in c
+                elif op == 4:
+                    if len(list(c.keys())) > cap:
+                        over.append(1)
+                elif op == 5:
+                    list(c.items())
+                elif op == 6:
+                    list(c.values())
+                else:
+                    if len(c) > cap:
+                        over.append(1)
+            except Exception as e:  # noqa: BLE001
+                errors.append(type(e).__name__)
+                return
+
+    try:
+        ths = [threading.Thread(target=worker, args=(t,)) for t in range(nthreads)]
+        for t in ths:
+            t.start()
+        for t in ths:
+            t.join()
+    finally:
+        sys.setswitchinterval(old)
+    res.count("free_running_ops", nthreads * ops_per_thread)
+    res.case(outcome=f"free-running:{'fail' if errors or over else 'ok'}", n=1)
+    if errors:
+        res.violation({"part": "free-running", "clause": "no-failure", "exc": sorted(set(errors))[0]},
+                      f"free-running stress ({nthreads} threads, capacity {cap}): thread raised {sorted(set(errors))}",
+                      {"part": "free-running", "threads": nthreads, "capacity": cap, "seed": seed})
+    if over:
+        res.violation({"part": "free-running", "clause": "capacity"},
+                      f"free-running stress ({nthreads} threads, capacity {cap}): more than capacity entries observed",
+                      {"part": "free-running", "threads": nthreads, "capacity": cap, "seed": seed})
+
+
 class C24(Check):
     id = "C24"
     level = "model_checking"
@@ -525,7 +601,8 @@ class C24(Check):
             "sequential": "fixpoint, capacities 1..4, keys=capacity+1, values {0,1}",
             "threads": "2 threads x 1 op (all pairs, 5 inits) bound 2; 3 threads x 1 op and 2x2 ops bound 1"
             if tier == "quick"
-            else "2x1 ops bound 3; 2x2 ops and 3x1 ops (reduced alphabet) bound 2",
+            else "2x1 ops bound 3; 2x2 ops bound 2; 2 threads x (3 ops | 2 ops) bound 2; 3x1 ops bound 3; plus a SUPPLEMENTARY "
+                 "free-running stress (2..16 real threads, switch interval 1e-6) that is sampling and reported separately",
         }
 
     def shards(self, tier: str) -> list[Any]:
@@ -534,12 +611,18 @@ class C24(Check):
         per = 6 if tier == "quick" else 4
         for i in range(0, len(progs), per):
             sh.append(("thr", progs[i : i + per]))
+        if tier == "thorough":
+            sh += [("free", n, cap) for n in (2, 4, 8, 16) for cap in (1, 2, 4)]
         return sh
 
     def run_shard(self, shard: Any, tier: str) -> Result:
         res = Result()
         if shard[0] == "seq":
             bfs_sequential(shard[1], shard[2], res)
+        elif shard[0] == "free":
+            import os
+
+            free_running_stress(shard[1], shard[2], int(os.environ.get("VERIF_SEED", "0") or 0), res)
         else:
             for prog in shard[1]:
                 run_thread_program(prog, res)
@@ -548,6 +631,10 @@ class C24(Check):
 
     def replay(self, case: Any) -> list[dict[str, Any]]:
         out: list[dict[str, Any]] = []
+        if case["part"] == "free-running":
+            r = Result()
+            free_running_stress(case["threads"], case["capacity"], case["seed"], r)
+            return r.violations
         if case["part"] == "sequential":
             hist = [tuple(x) for x in case["history"]]
             st: list[tuple[str, int]] = []
